@@ -570,7 +570,7 @@ def gpg_crosscheck(ctx, d, blobs, tmp):
         lasts = re.findall(r'last=(\d)', out)
         mine = d.call('parse', FUEL, hx(blob)).split(' ', 3)
         toks = re.findall(r'(?:^|[;\[])([A-Z]\d*):', mine[3])
-        names = {'O': 'onepass', 'S': 'signature', 'L': 'literal', 'C': 'compressed'}
+        names = {'O': 'onepass_sig', 'S': 'signature', 'L': 'literal', 'C': 'compressed'}
         if [names.get(t, t) for t in toks] == kinds and ''.join(lasts) == (mine[2] if mine[2] != '-' else ''):
             agree += 1
         else:
